@@ -255,7 +255,8 @@ fn main() {
                 let mo = m.eval(&sexp);
                 let prov = if mo != oc {
                     let msg: String = oc.split("hostpanic: ").nth(1).unwrap_or("").chars().take(20).collect();
-                    format!("{}:{}:{}:{}", classify_pair(&mo, &oc), opt, class_of(&mo), msg)
+                    let kind = classify_pair(&mo, &oc);
+                    if kind == "host-panic" { format!("host-panic:{}", msg) } else { format!("{}:{}:{}", kind, opt, class_of(&mo)) }
                 } else {
                     String::new()
                 };
